@@ -6,7 +6,10 @@ What is extracted (fail-closed: any construct outside the expected shape raises 
   * PipelineRunner.__init__ starts every node as "pending" with an empty state;
   * which attributes/methods of the pipeline the runner touches;
   * PipelineRunner.run: the order of the status tests and what each does, the status words written,
-    and that the handler re-raises the very exception it caught.
+    and that the handler re-raises the very exception it caught;
+  * PipelineBuilder.connect / default_connection (builder.py): what a wiring argument is turned into -- the
+    tests applied to it in order and the node name stored for each (a Node is wired by its name, anything
+    else becomes a new literal node).
 """
 
 from __future__ import annotations
@@ -16,7 +19,7 @@ import ast
 from .pyq import TranslateError, fail
 
 HEADER = """(* GENERATED on every run by harness/translate/c02.py from
-   src/lenskit/pipeline/runner.py and src/lenskit/pipeline/_impl.py -- do not edit. *)
+   src/lenskit/pipeline/runner.py, src/lenskit/pipeline/_impl.py and src/lenskit/pipeline/builder.py -- do not edit. *)
 From Coq Require Import List String Bool.
 Import ListNotations.
 Open Scope string_scope.
@@ -245,6 +248,69 @@ def translate(src):
     if reraises_same is None:
         fail(rrun, "no try/except around _run_node")
 
+    # --- PipelineBuilder.connect / default_connection: Node -> its name, anything else -> a new literal ---------
+    builder = ast.parse((src / "lenskit/pipeline/builder.py").read_text())
+    B = _cls(builder, "PipelineBuilder")
+
+    def stored(body, target_ok):
+        """the expression stored by the last statement of a branch, with locals assigned in the branch substituted"""
+        loc = {}
+        val = None
+        for st in body:
+            if isinstance(st, ast.Assign) and len(st.targets) == 1:
+                t = st.targets[0]
+                if isinstance(t, ast.Name):
+                    loc[t.id] = st.value
+                elif target_ok(t):
+                    val = st.value
+                else:
+                    fail(st, "unexpected assignment in a wiring branch")
+            elif isinstance(st, ast.Expr) and isinstance(st.value, ast.Call):
+                pass        # a check that may only raise
+            else:
+                fail(st, "unexpected statement in a wiring branch")
+        if val is None:
+            fail(body[-1], "wiring branch stores nothing")
+
+        class Sub(ast.NodeTransformer):
+            def visit_Name(self, n):
+                return loc.get(n.id, n)
+        return ast.unparse(Sub().visit(val))
+
+    connect = _fn(B, "connect")
+    loops = [n for n in connect.body if isinstance(n, ast.For)]
+    if len(loops) != 1 or ast.unparse(loops[0].iter) != f"{connect.args.kwarg.arg}.items()" or loops[0].orelse:
+        fail(connect, "connect does not loop once over its keyword wiring")
+    loop = loops[0]
+    if len(loop.body) != 1 or not isinstance(loop.body[0], ast.If):
+        fail(loop, "the wiring loop of connect is not a single if/else")
+    kvar = loop.target.elts[0].id
+
+    def edge_target(t):
+        return isinstance(t, ast.Subscript) and isinstance(t.value, ast.Name) and isinstance(t.slice, ast.Name) and t.slice.id == kvar
+    wiring = []
+    node = loop.body[0]
+    while True:
+        wiring.append((ast.unparse(node.test), stored(node.body, edge_target)))
+        if len(node.orelse) == 1 and isinstance(node.orelse[0], ast.If):
+            node = node.orelse[0]
+        else:
+            if not node.orelse:
+                fail(node, "the wiring loop of connect has no else branch")
+            wiring.append(("else", stored(node.orelse, edge_target)))
+            break
+    dc = _fn(B, "default_connection")
+    dflt = []
+    for st in dc.body:
+        if isinstance(st, ast.Expr) and isinstance(st.value, ast.Constant):
+            continue
+        if isinstance(st, ast.If) and not st.orelse and len(st.body) == 1 and isinstance(st.body[0], ast.Assign):
+            dflt.append(f"if {ast.unparse(st.test)}: {ast.unparse(st.body[0])}")
+        elif isinstance(st, ast.Assign):
+            dflt.append(ast.unparse(st))
+        else:
+            fail(st, "unexpected statement in default_connection")
+
     out = [HEADER]
     out.append("(* Pipeline.run_all: `runner = PipelineRunner(self, kwargs)` in a local, then runner.run(node) per requested node *)\n")
     out.append("Definition runner_fresh_per_run : bool := true.\n")
@@ -258,4 +324,7 @@ def translate(src):
     out.append("Definition status_dispatch : list (string * string) := [" + "; ".join(f"({cstr(a)}, {cstr(b)})" for a, b in dispatch) + "].\n")
     out.append(f"Definition status_writes : list string := {'[' + '; '.join(cstr(m) for m in writes) + ']'}.\n")
     out.append(f"Definition handler_reraises_same_exception : bool := {str(bool(reraises_same)).lower()}.\n")
+    out.append("(* PipelineBuilder.connect: for each keyword wiring k=n, the tests on n in order and the node name stored *)\n")
+    out.append("Definition connect_wiring : list (string * string) := [" + "; ".join(f"({cstr(a)}, {cstr(b)})" for a, b in wiring) + "].\n")
+    out.append(f"Definition default_connection_body : list string := {'[' + '; '.join(cstr(m) for m in dflt) + ']'}.\n")
     return {"Gen/C02_shape.v": "".join(out)}
